@@ -18,6 +18,7 @@ import (
 	"fmt"
 	"iter"
 	"reflect"
+	"sort"
 	"strings"
 	"time"
 
@@ -381,6 +382,9 @@ type H struct {
 	preCall        func(h *H, c call)             // runs before the reference comparison
 	allowDeviation func(h *H, exp, got call) bool // a callback that differs from the reference but is permitted: stop comparing
 	nodes          map[*spec]flyt.Node
+	topDown        bool     // wiring order of nested flows (see build)
+	buildDepth     int      // nesting of flow builds in progress
+	deferredWiring []func() // connections of inner flows still to be made (top-down wiring)
 	visits         map[*spec]int
 	diverged       bool // the run legitimately left the uncancelled reference (after a cancellation)
 	noRefCheck     bool
@@ -623,6 +627,31 @@ func (h *H) attemptOf(s *spec) int {
 	return k
 }
 
+// sortedEdges lists a flow's connections in a fixed order (by source id, then action): the order
+// of Connect calls must not depend on Go's map iteration, or replays diverge as soon as a changed
+// library makes the order matter.
+type edgeT struct {
+	from   *spec
+	action flyt.Action
+	to     *spec
+}
+
+func sortedEdges(fs *flowSpec) []edgeT {
+	var l []edgeT
+	for from, m := range fs.edges {
+		for a, to := range m {
+			l = append(l, edgeT{from, a, to})
+		}
+	}
+	sort.Slice(l, func(i, j int) bool {
+		if l[i].from.id != l[j].from.id {
+			return l[i].from.id < l[j].from.id
+		}
+		return l[i].action < l[j].action
+	})
+	return l
+}
+
 // build constructs (once) the real flyt node for a spec.
 func (h *H) build(s *spec) flyt.Node {
 	if n, ok := h.nodes[s]; ok {
@@ -637,19 +666,36 @@ func (h *H) build(s *spec) flyt.Node {
 		}
 		f = flyt.NewFlow(nil)
 		h.nodes[s] = f // registered first: the flow may contain itself as a node
+		outermost := h.buildDepth == 0
+		h.buildDepth++
 		*f = *flyt.NewFlow(h.build(s.flow.start))
 		if s.n > 1 {
 			flyt.WithMaxRetries(s.n)(f.BaseNode)
 		}
-		for from, m := range s.flow.edges {
-			for a, to := range m {
-				if to == nil {
-					f.Connect(h.build(from), a, nil)
+		wire := func() {
+			for _, e := range sortedEdges(s.flow) {
+				if e.to == nil {
+					f.Connect(h.build(e.from), e.action, nil)
 				} else {
-					f.Connect(h.build(from), a, h.build(to))
+					f.Connect(h.build(e.from), e.action, h.build(e.to))
 				}
 			}
 		}
+		if h.topDown && !outermost {
+			// top-down wiring: this flow is handed to its parent while it is still a bare
+			// NewFlow(start); its own connections are made after the parent has been wired
+			h.deferredWiring = append(h.deferredWiring, wire)
+		} else {
+			wire()
+		}
+		if outermost {
+			for len(h.deferredWiring) > 0 {
+				w := h.deferredWiring[0]
+				h.deferredWiring = h.deferredWiring[1:]
+				w()
+			}
+		}
+		h.buildDepth--
 		return f
 	}
 	opts := []flyt.NodeOption{flyt.WithMaxRetries(s.n)}
